@@ -53,6 +53,19 @@ Block(A, B, C, D) == [i \in 1..(Rows(A) + Rows(C)) |-> [j \in 1..(Cols(A) + Cols
                         IF i <= Rows(A) THEN (IF j <= Cols(A) THEN A[i][j] ELSE B[i][j - Cols(A)])
                         ELSE (IF j <= Cols(A) THEN C[i - Rows(A)][j] ELSE D[i - Rows(A)][j - Cols(A)])]]
 
+\* a grid of blocks (any number of block rows and block columns): consistent iff every block of block row r has the height of that
+\* row and every block of block column c the width of that column; the result places block (r,c) at the offsets of the partition
+RECURSIVE SumUpTo(_, _)
+SumUpTo(f, k) == IF k = 0 THEN 0 ELSE f[k] + SumUpTo(f, k - 1)
+GridHeights(G) == [r \in 1..Len(G) |-> Rows(G[r][1])]
+GridWidths(G)  == [c \in 1..Len(G[1]) |-> Cols(G[1][c])]
+GridOK(G) == /\ \A r \in 1..Len(G) : Len(G[r]) = Len(G[1])
+             /\ \A r \in 1..Len(G) : \A c \in 1..Len(G[1]) : Rows(G[r][c]) = GridHeights(G)[r] /\ Cols(G[r][c]) = GridWidths(G)[c]
+BlockOf(f, i) == CHOOSE k \in 1..Len(f) : SumUpTo(f, k - 1) < i /\ i <= SumUpTo(f, k)
+BlockGrid(G) == LET Hs == GridHeights(G)  Ws == GridWidths(G) IN
+                [i \in 1..SumUpTo(Hs, Len(Hs)) |-> [j \in 1..SumUpTo(Ws, Len(Ws)) |->
+                    LET r == BlockOf(Hs, i)  c == BlockOf(Ws, j) IN G[r][c][i - SumUpTo(Hs, r - 1)][j - SumUpTo(Ws, c - 1)]]]
+
 \* ---- when is a request meaningful (C04 "defined exactly when", shared with C10)
 Defined(op, A, B) ==
   CASE op \in {"MPlus", "MMinus"} -> SameShape(A, B)
